@@ -256,6 +256,53 @@ impl DecoderState {
         self.unpacked_size = unpacked_size;
     }
 
+    /// Verification hook: number of bytes held in the partial input buffer.
+    #[cfg(lzma_rs_verif)]
+    pub(crate) fn verif_partial_len(&self) -> usize {
+        self.partial_input_buf.position() as usize
+    }
+
+    /// Verification hook: projection of the adaptive state: number of
+    /// probability entries that differ from their initial value, per table
+    /// group, followed by `state`, `rep[0..4]`, the literal table size, the
+    /// size in effect (`u64::MAX` for none) and the partial buffer fill.
+    #[cfg(lzma_rs_verif)]
+    pub(crate) fn verif_projection(&self) -> Vec<u64> {
+        fn dirty(p: &[u16]) -> u64 {
+            p.iter().filter(|x| **x != 0x400).count() as u64
+        }
+        let rows = 1usize << (self.lzma_props.lc + self.lzma_props.lp);
+        let mut lit = 0;
+        for r in 0..rows {
+            lit += dirty(&self.literal_probs[r]);
+        }
+        vec![
+            lit,
+            self.pos_slot_decoder.iter().map(|t| t.verif_dirty()).sum(),
+            self.align_decoder.verif_dirty(),
+            dirty(&self.pos_decoders),
+            dirty(&self.is_match),
+            dirty(&self.is_rep)
+                + dirty(&self.is_rep_g0)
+                + dirty(&self.is_rep_g1)
+                + dirty(&self.is_rep_g2),
+            dirty(&self.is_rep_0long),
+            self.len_decoder.verif_dirty(),
+            self.rep_len_decoder.verif_dirty(),
+            self.state as u64,
+            self.rep[0] as u64,
+            self.rep[1] as u64,
+            self.rep[2] as u64,
+            self.rep[3] as u64,
+            rows as u64,
+            self.unpacked_size.unwrap_or(u64::MAX),
+            self.partial_input_buf.position(),
+            self.lzma_props.lc as u64,
+            self.lzma_props.lp as u64,
+            self.lzma_props.pb as u64,
+        ]
+    }
+
     pub fn process<W: io::Write, LZB: LzBuffer<W>, R: io::BufRead>(
         &mut self,
         output: &mut LZB,
@@ -306,12 +353,15 @@ impl DecoderState {
                 } else {
                     self.state - 6
                 };
+                verif_ev!("lit", byte, self.state, output.len());
             }
             return Ok(ProcessingStatus::Continue);
         }
 
         // LZ
         let mut len: usize;
+        #[cfg(lzma_rs_verif)]
+        let mut verif_rep_idx: u64 = 0;
         // Distance is repeated from LRU
         if rangecoder.decode_bit(&mut self.is_rep[self.state], update)? {
             // dist = rep[0]
@@ -326,6 +376,7 @@ impl DecoderState {
                         self.state = if self.state < 7 { 9 } else { 11 };
                         let dist = self.rep[0] + 1;
                         output.append_lz(1, dist)?;
+                        verif_ev!("short", dist, self.state, output.len());
                     }
                     return Ok(ProcessingStatus::Continue);
                 }
@@ -347,6 +398,10 @@ impl DecoderState {
                     }
                     self.rep[0] = dist
                 }
+                #[cfg(lzma_rs_verif)]
+                if update {
+                    verif_rep_idx = idx as u64;
+                }
             }
 
             len = self.rep_len_decoder.decode(rangecoder, pos_state, update)?;
@@ -354,6 +409,10 @@ impl DecoderState {
             if update {
                 // update state (rep)
                 self.state = if self.state < 7 { 8 } else { 11 };
+            }
+            #[cfg(lzma_rs_verif)]
+            {
+                verif_rep_idx += 1;
             }
         // New distance
         } else {
@@ -377,6 +436,7 @@ impl DecoderState {
                 self.rep[0] = rep_0;
                 if self.rep[0] == 0xFFFF_FFFF {
                     if rangecoder.is_finished_ok()? {
+                        verif_ev!("eos", self.state, output.len());
                         return Ok(ProcessingStatus::Finished);
                     }
                     return Err(error::Error::LzmaError(String::from(
@@ -391,6 +451,8 @@ impl DecoderState {
 
             let dist = self.rep[0] + 1;
             output.append_lz(len, dist)?;
+            // kind: 0 = new-distance match, 1 + r = repeated match with rep index r
+            verif_ev!("copy", verif_rep_idx, len, dist, self.state, output.len());
         }
 
         Ok(ProcessingStatus::Continue)
@@ -419,6 +481,7 @@ impl DecoderState {
         let mut temp = std::io::Cursor::new(buf);
         let mut rangecoder = RangeDecoder::from_parts(&mut temp, range, code);
         let _ = self.process_next_inner(output, &mut rangecoder, false)?;
+        verif_ev!("dryok", buf.len());
         Ok(())
     }
 
@@ -632,6 +695,12 @@ impl LzmaDecoder {
         if let Some(unpacked_size) = unpacked_size {
             self.state.set_unpacked_size(unpacked_size);
         }
+    }
+
+    /// Verification hook: see `DecoderState::verif_projection`.
+    #[cfg(lzma_rs_verif)]
+    pub fn verif_projection(&self) -> Vec<u64> {
+        self.state.verif_projection()
     }
 
     /// Decompresses the input data into the output, consuming only as much
